@@ -58,6 +58,8 @@ def _diff_history(args):
             now = D.CLOCK.now
             pre = drv.state()
             res = rec.request(req)
+            if res.get("kind") == "unsendable":
+                continue
             post = drv.state()
             gen.observe(res, post)
             # the same request on a fresh engine over the copy
